@@ -33,12 +33,17 @@ def check(run):
         why = 'the reply chunk is forwarded with %s, which may write only part of it; on_server_forward ignores the count and re-reads into the same buffer, so the remainder is lost' % q.callee_name(ws[0]).split('::')[-1]
     run.check(ok, 'R4', 'relay-forwards-whole-chunk', H + '::on_server_receive', rcv.loc(), why, 'whole chunk forwarded verbatim')
     run.check(not [c for c in rcv.calls() if (q.callee_name(c) or '').endswith('async_read_some')], 'R4', 'relay-no-overlapping-read', H + '::on_server_receive', rcv.loc(), 'a read into m_in_buffer is started while it is being written out', 'no overlapping read')
-    rr = [c for c in fwd.calls() if (q.callee_name(c) or '').endswith('async_read_some')]
-    run.check(len(rr) == 1 and q.render(fwd, rr[0].get('obj')) == 'm_server_connection' and 'm_in_buffer' in q.render(fwd, rr[0]) and rcv.usr in bound_fn(fwd, rr[0]), 'R4', 'relay-rereads', H + '::on_server_forward', fwd.loc(),
+    is_read = lambda g, c: (q.callee_name(c) or '').endswith('async_read_some')
+    rrf = q.flat_calls(fwd, is_read)          # directly or in a helper such as read_from_server()
+    run.check(len(rrf) == 1 and q.render(rrf[0].owner, rrf[0].call.get('obj')) == 'm_server_connection' and 'm_in_buffer' in q.render(rrf[0].owner, rrf[0].call) and rcv.usr in bound_fn(rrf[0].owner, rrf[0].call), 'R4', 'relay-rereads', H + '::on_server_forward', fwd.loc(),
               'the write completion does not re-arm exactly one read of the origin into m_in_buffer', 're-arms the read')
-    for c in rr + [c for c in f('on_connected').calls() if (q.callee_name(c) or '').endswith('async_read_some')]:
-        fn = fwd if c in rr else f('on_connected')
-        b = [x for x in walk(c) if x['k'] == 'call' and q.callee_name(x) == 'boost::asio::buffer']
+    seen_reads = set()
+    for x in rrf + q.flat_calls(f('on_connected'), is_read):
+        fn, c = x.owner, x.call
+        if id(c) in seen_reads:
+            continue
+        seen_reads.add(id(c))
+        b = [y for y in walk(c) if y['k'] == 'call' and q.callee_name(y) == 'boost::asio::buffer']
         okb = bool(b) and (len(b[0]['args']) == 1 or q.int_value(b[0]['args'][1]) == 65536 or q.render(fn, b[0]['args'][1]) == 'sizeof(char[65536])')
         run.check(okb, 'R11', 'relay-read-extent', '%s: read into m_in_buffer' % fn.norm, fn.loc(c), 'the read into m_in_buffer is sized %s, not the array' % (q.render(fn, b[0]['args'][1]) if b and len(b[0]['args']) > 1 else '?'), 'sized by the array')
 
@@ -48,7 +53,21 @@ def check(run):
     mm = [c for c in fr.calls() if q.callee_name(c) in ('memmove', 'memcpy') and 'm_server_out_buffer' in q.render(fr, c['args'][0])]
     for c in mm:
         g = q.guards_at(fr, c)
-        okg = any(q.cmp_atom(a) and q.cmp_atom(a)[0] == '>' and not p and 'm_num_server_out_bytes' in q.render(fr, a) and 'out_request.size()' in q.render(fr, a) and '65536' in q.render(fr, a).replace('sizeof(char[65536])', '65536') for a, p in g)
+        # some dominating guard establishes used + size <= capacity, in linear normal form through const locals
+        csub = q.const_local_subst(fr)
+        CAP = ({'m_num_server_out_bytes': 1, 'out_request.size()': 1}, -65536)
+        okg = False
+        for a, p_ in g:
+            cm = q.cmp_atom(a)
+            if not cm:
+                continue
+            op = cm[0] if p_ else q.NEG[cm[0]]
+            la, lb = q.linform(fr, cm[1], csub), q.linform(fr, cm[2], csub)
+            if la is None or lb is None:
+                continue
+            d = q.lin_sub(la, lb)
+            if (op == '<=' and d == CAP) or (op == '>=' and d == q.lin_neg(CAP)):
+                okg = True
         dst_ok = q.render(fr, c['args'][0]) == '&m_server_out_buffer[m_num_server_out_bytes]' and q.render(fr, c['args'][2]) == 'out_request.size()'
         run.check(okg and dst_ok, 'R11', 'pipeline-append-bounded', H + '::forward_request', fr.loc(c), 'the rewritten request is appended to m_server_out_buffer without the dominating capacity test (or not at the current end)', 'appended at the end under used + size <= capacity')
         adv = [a for a in q.field_accesses(fr, {H + '::m_num_server_out_bytes'}) if a.kind == 'compound' and a.method == '+=' and 'out_request.size()' in q.render(fr, a.site['rhs'])]
